@@ -30,7 +30,7 @@ GROUPS = {'ts1': ['g'], 'ts0': [], 'ts2': ['g', 'h']}
 
 
 def floors(tier):
-    return {'windows_checked': 1200, 'len:time_ops': 9, 'len:models': 3, 'rejections_checked': 100, 'limit_after_join_checked': 100}
+    return {'windows_checked': 1200, 'len:time_ops': 9, 'len:models': 3, 'rejections_checked': 100, 'limit_after_join_checked': 100, 'branch_plans_over_ten_steps': 100}
 
 
 def ceilings(tier):
@@ -172,6 +172,98 @@ def time_filter_ok(ap, op, val):
     return getattr(bound, 'value', None) == val, 'bound'
 
 
+def results_read(obj, depth=0, seen=None):
+    """step numbers of every Result object a step holds (attributes, lists, sub-steps, query trees)"""
+    seen = seen if seen is not None else set()
+    out = []
+    if id(obj) in seen or depth > 12:
+        return out
+    seen.add(id(obj))
+    if type(obj).__name__ == 'Result':
+        return [obj.step_num]
+    if isinstance(obj, (list, tuple)):
+        for x in obj:
+            out += results_read(x, depth + 1, seen)
+    elif isinstance(obj, dict):
+        for x in obj.values():
+            out += results_read(x, depth + 1, seen)
+    elif hasattr(obj, '__dict__'):
+        for k, x in vars(obj).items():
+            if k != 'result_data':
+                out += results_read(x, depth + 1, seen)
+    return out
+
+
+def judge_branches(plan, limits):
+    """A statement made of several forecasts (UNION branches): in the step list every step reads results of EARLIER steps only, and the
+    result of every time-series join is read by its LIMIT step and by nothing else; what the statement returns passes through it."""
+    out = []
+    steps = plan.steps
+    pos = {s.step_num: k for k, s in enumerate(steps)}
+    reads = {k: [x for x in results_read([v for kk, v in vars(s).items() if kk != 'result_data'])] for k, s in enumerate(steps)}
+    for k, s in enumerate(steps):
+        if s.step_num != k:
+            out.append(({'part': 'step-numbers-not-in-list-order'}, {'numbers': [str(x.step_num) for x in steps]}))
+            break
+        late = [x for x in reads[k] if pos.get(x, 10 ** 6) >= k]
+        if late:
+            out.append(({'part': 'step-reads-a-result-not-yet-made', 'step': type(s).__name__}, {'step_num': k, 'reads': late}))
+            break
+    apply_nums = {s.step_num for s in steps if type(s).__name__ == 'ApplyTimeseriesPredictorStep'}
+    joins = [s for s in steps if type(s).__name__ == 'JoinStep' and set(results_read([s.left, s.right])) & apply_nums]
+    lims = [s for s in steps if type(s).__name__ == 'LimitOffsetStep']
+    if len(joins) != len(limits):
+        out.append(({'part': 'branch-join-count', 'n': len(joins)}, {}))
+        return out
+    if [getattr(x.limit, 'value', x.limit) for x in lims] != limits:
+        out.append(({'part': 'limit-not-after-join', 'why': 'limit-steps-of-the-branches'}, {'limits': repr([x.limit for x in lims]), 'expected': limits}))
+    for j in joins:
+        readers = [steps[k] for k in range(len(steps)) if j.step_num in reads[k]]
+        if len(readers) != 1 or type(readers[0]).__name__ != 'LimitOffsetStep':
+            out.append(({'part': 'limit-not-after-join', 'why': 'join-result-read-past-its-limit-step'},
+                        {'join': j.step_num, 'readers': [f'{x.step_num}:{type(x).__name__}' for x in readers]}))
+    for l_ in lims:
+        if not any(l_.step_num in reads[k] for k in range(len(steps))) and l_ is not steps[-1]:
+            out.append(({'part': 'limit-not-after-join', 'why': 'limit-step-result-read-by-nothing'}, {'limit_step': l_.step_num}))
+    return out
+
+
+def run_branches(ctx, i, r):
+    """UNION [ALL] of two or three forecasts with a LIMIT each (plans of more than ten steps)."""
+    from mindsdb_sql import parse_sql
+    from mindsdb_sql.planner import plan_query
+    from mindsdb_sql.exceptions import PlanningException
+    acc = ctx.acc
+    parts = []
+    for _ in range(200):
+        text, info = fedgen.ts_join(r)
+        if info['extra'] in ('order', 'group', 'offset', 'foreign', 'having') or info['limit'] is None or text.startswith('SELECT *') != (i % 2 == 0):
+            continue
+        parts.append((text, info))
+        if len(parts) == 2 + (i // 8) % 2:
+            break
+    else:
+        return
+    kw, desc = fedgen.catalog(r, form=[0, 1, 3, 5][(i // 8) % 4])
+    text = f' {r.choice(["UNION", "UNION ALL"])} '.join(t for t, _ in parts)
+    acc.ev()
+    try:
+        plan = plan_query(parse_sql(text, 'mindsdb'), **copy.deepcopy(kw))
+    except (PlanningException, NotImplementedError) as e:
+        acc.count('branches_rejected')
+        return
+    except Exception:
+        acc.count('internal_error_is_C09')
+        return
+    acc.count('branch_plans_checked')
+    acc.add('branch_plan_lengths', len(plan.steps))
+    if len(plan.steps) > 10:
+        acc.count('branch_plans_over_ten_steps')
+    for sig, det in judge_branches(plan, [inf['limit'] for _, inf in parts]):
+        det.update({'text': text, 'plan': [f'{s.step_num}:{type(s).__name__}' for s in plan.steps], 'catalog': desc})
+        acc.fail(dict(sig, branches=len(parts)), det)
+
+
 def run_shard(ctx):
     from mindsdb_sql import parse_sql
     from mindsdb_sql.planner import plan_query
@@ -185,6 +277,9 @@ def run_shard(ctx):
             acc.notes.append(f'shard {ctx.shard}: time budget hit at {i}')
             break
         r = core.rng_for(ctx.seed, 'C15', i)
+        if i % 8 == 5:
+            run_branches(ctx, i, r)
+            continue
         text, info = fedgen.ts_join(r)
         kw, desc = fedgen.catalog(r, form=[0, 1, 3, 5][i % 4])
         # recover the concrete bound from the text
